@@ -97,6 +97,65 @@ pub mod env {
         // WalRotator::recover_entries_after keeps entries with stamp >= threshold (checked by c11::entries_after)
         ts >= t
     }
+    /// C13: what recovery returns for key "k" before and after a compaction of `inside` (one update per compacted
+    /// segment), with an optional update `outside` the compaction; TTL 0, clock = `now` (so the tombstone cutoff is
+    /// `now`). Kani: S8-extracted statements of compact(); natively: real compact() + real recover().
+    /// -> (before, after, key survives in the compacted segment, tombstones dropped)
+    pub fn compact_then_recover(inside: [Option<redis_sim::replication::state::ReplicationDelta>; 3], outside: Option<redis_sim::replication::state::ReplicationDelta>, now: u64)
+        -> (Option<redis_sim::replication::state::ReplicatedValue>, Option<redis_sim::replication::state::ReplicatedValue>, bool, u64) {
+        use redis_sim::replication::state::ReplicatedValue;
+        let mut before: Option<ReplicatedValue> = match &outside { Some(d) => Some(d.value.clone()), None => None };
+        macro_rules! acc { ($i:literal) => { if let Some(d) = &inside[$i] { before = Some(match before { Some(b) => { let m = b.merge(&d.value); std::mem::forget(b); m } None => d.value.clone() }); } } }
+        acc!(0); acc!(1); acc!(2);
+        let [d0, d1, d2] = inside;
+        let (mut map, dropped) = redis_sim::streaming::compaction::verif_compact_fold(d0, d1, d2, now, std::time::Duration::ZERO);
+        let surv = map.remove("k");
+        let survives = surv.is_some();
+        let after = match (outside, surv) {
+            (Some(o), Some(s)) => { let m = o.value.merge(&s.value); std::mem::forget((o, s)); Some(m) }
+            (Some(o), None) => Some(o.value),
+            (None, Some(s)) => Some(s.value),
+            (None, None) => None,
+        };
+        std::mem::forget(map);
+        (before, after, survives, dropped)
+    }
+    /// C11: ids of the listed segments that recover() loads (S9-extracted statements; natively the real recover()
+    /// on a store whose segment i holds one update of key "s<i>")
+    pub fn recover_plan(ids: &[u64], min_ts: &[u64], ckpt_last: Option<u64>) -> Vec<u64> {
+        use redis_sim::streaming::{Manifest, manifest::SegmentInfo};
+        let mut m = Manifest::new(1);
+        let mut i = 0;
+        while i < ids.len() {
+            m.segments.push(SegmentInfo { id: ids[i], key: String::new(), record_count: 1, size_bytes: 1, min_timestamp: min_ts[i], max_timestamp: min_ts[i] });
+            i += 1;
+        }
+        let ck: Option<crate::coll::HashMap<String, redis_sim::replication::state::ReplicatedValue>> = match ckpt_last { Some(_) => Some(crate::coll::HashMap::new()), None => None };
+        let plan = redis_sim::streaming::recovery::verif_recover_segment_plan(&m, &ck, match ckpt_last { Some(l) => l, None => 0 });
+        std::mem::forget((m, ck));
+        plan
+    }
+    /// C08: a checkpoint entry (key "k") enters a shard the way ReplicatedShardActor does on restart, then the shard
+    /// records a local write of "k"; returns the stamp of that write's delta and the value a peer holding the
+    /// recovered entry serves after merging the delta. (Kani: S10-extracted arm, executor calls are no-ops; natively:
+    /// the real actor over its mailbox.)
+    pub fn recovered_then_write(clock0: u64, recovered: redis_sim::replication::state::ReplicatedValue, nb: u8)
+        -> (redis_sim::replication::lattice::LamportClock, Option<u8>) {
+        use redis_sim::replication::config::ConsistencyLevel;
+        use redis_sim::replication::lattice::ReplicaId;
+        use redis_sim::replication::state::ShardReplicaState;
+        let mut st = ShardReplicaState::new(ReplicaId(1), ConsistencyLevel::Eventual);
+        st.lamport_clock.time = clock0;
+        let mut ex = redis_sim::redis::CommandExecutor::verif_new_bare();
+        let peer = recovered.clone();
+        redis_sim::production::verif_apply_recovered_state(&mut st, &mut ex, "k".to_string(), recovered);
+        let d = st.record_write("k".to_string(), crate::scenarios::util::sds1(nb), None);
+        let on_peer = peer.merge(&d.value);
+        let served = on_peer.get().map(|s| s.as_bytes()[0]);
+        let ts = d.value.timestamp;
+        std::mem::forget((st, ex, d, on_peer, peer));
+        (ts, served)
+    }
     /// does run() answer the `count` GETs its collector consumed from this buffer, at this threshold?
     /// (Kani: run()'s own admission condition, extracted by S3; natively: the real run() over a duplex stream)
     pub fn consumed_gets_answered(_buffer: &[u8], count: usize, threshold: usize) -> bool {
@@ -204,6 +263,21 @@ macro_rules! registry {
         #[kani::stub(parking_lot::raw_mutex::RawMutex::lock_slow, crate::stubs::pl_lock_slow)]
         #[kani::stub(parking_lot::raw_mutex::RawMutex::unlock_slow, crate::stubs::pl_unlock_slow)]
         #[kani::stub(redis_sim::redis::CommandExecutor::execute, redis_sim::redis::CommandExecutor::verif_execute_small)]
+        pub fn $name() { $body }
+    };
+    (@one $name:ident, $unwind:literal, noexec, $body:expr) => {
+        #[kani::proof]
+        #[kani::unwind($unwind)]
+        #[kani::stub(alloc::fmt::format, crate::stubs::stub_format)]
+        #[kani::stub(core::ptr::align_offset, crate::stubs::no_align_offset)]
+        #[kani::stub(str::to_uppercase, crate::stubs::ascii_upper)]
+        #[kani::stub(core::arch::x86_64::__cpuid_count, crate::stubs::fake_cpuid)]
+        #[kani::stub(tracing_core::callsite::DefaultCallsite::interest, crate::stubs::stub_interest)]
+        #[kani::stub(tracing::__macro_support::__is_enabled, crate::stubs::stub_is_enabled)]
+        #[kani::stub(tracing_core::event::Event::dispatch, crate::stubs::stub_dispatch)]
+        #[kani::stub(parking_lot::raw_mutex::RawMutex::lock_slow, crate::stubs::pl_lock_slow)]
+        #[kani::stub(parking_lot::raw_mutex::RawMutex::unlock_slow, crate::stubs::pl_unlock_slow)]
+        #[kani::stub(redis_sim::redis::CommandExecutor::execute, crate::stubs::noop_execute)]
         pub fn $name() { $body }
     };
     (@one $name:ident, $unwind:literal, alloc, $body:expr) => {
